@@ -192,15 +192,7 @@ def map_scalar_constraints(doc):
     return walk(doc)
 
 
-def admits_null_alt(s):
-    if not isinstance(s, dict):
-        return False
-    for key in ("anyOf", "oneOf"):
-        for a in s.get(key, []):
-            if isinstance(a, dict) and ((isinstance(a.get("type"), list) and "null" in a["type"]) or a.get("type") == "null"
-                                        or (None in a.get("enum", [])) or admits_null_alt(a)):
-                return True
-    return False
+admits_null_alt = ss.admits_null_alt
 
 
 def required_union_with_null(doc):
